@@ -665,4 +665,28 @@ pub fn agreement_matrix(r: &mut Report, repetitions: usize, tag: &str) {
             }
         }
     }
+    // what a link says about its command (return value, output) has no say in whether it takes part: a dissenting link whose
+    // command failed is still a dissenting link, and agreeing links of a failed command are still links
+    if tag == "agreement" {
+        let mut bad: Vec<String> = vec![]; let mut cells = 0;
+        let with_bp = |dm: &[(&str, u8)], dp: &[(&str, u8)], rv: Option<i32>, out: &str| {
+            let mut bp = in_toto::models::byproducts::ByProducts::new();
+            if let Some(v) = rv { bp = bp.set_return_value(v); }
+            if !out.is_empty() { bp = bp.set_stderr(out.to_string()).set_stdout(out.to_string()); }
+            in_toto::models::LinkMetadataBuilder::new().name("a".into()).materials(artifacts(dm)).products(artifacts(dp)).byproducts(bp).build().unwrap()
+        };
+        for n in 2..=4usize { for pos in 0..n { for threshold in [2u32, n as u32] { for (rv, out) in [(Some(1), ""), (Some(-1), "boom"), (Some(255), ""), (None, "boom"), (Some(0), "boom")] { for dissent in [true, false] {
+            cells += 1;
+            let d = tmpdir();
+            let ks: Vec<&in_toto::crypto::PrivateKey> = pool.iter().take(n).collect();
+            for (i, k) in ks.iter().enumerate() {
+                let l = if i == pos { if dissent { with_bp(&[("m", 1)], &[("p", 3), ("q", 5)], rv, out) } else { with_bp(&[("m", 1)], &[("p", 2), ("q", 5)], rv, out) } } else { link("a", &[("m", 1)], &[("p", 2), ("q", 5)]) };
+                write_link(d.path(), "a", k.key_id(), &signed_link(&l, &[k]));
+            }
+            let lay = signed_layout(&layout(vec![step("a", threshold, &ks, allow_all(), allow_all())], vec![], &ks, 30), &[&owner]);
+            let res = no_panic(|| in_toto_verify(&lay, owner_keys(&[&owner]), d.path().to_str().unwrap(), None).is_ok());
+            if res != Ok(!dissent) && bad.len() < 6 { bad.push(format!("links {} rank {} threshold {} return value {:?} output {:?} dissent {}: {:?}", n, pos, threshold, rv, out, dissent, res)); }
+        } } } } }
+        r.case("agreement-whatever-the-command-reported", json!({"cells": cells}), "Err exactly when the link dissents", format!("{:?}", bad), bad.is_empty());
+    }
 }
